@@ -592,8 +592,54 @@ impl<'a> Model for FsmModel<'a> {
     }
 }
 
+fn parse_ev(s: &str) -> Option<Ev> {
+    let (name, a) = bfs::parse_call(s);
+    Some(match name.as_str() {
+        "Connect" => Ev::Connect(*a.first()? as usize),
+        "Disconnect" => Ev::Disconnect(*a.first()? as usize),
+        "Deliver" => Ev::Deliver(*a.first()? as usize),
+        "Announce" => Ev::Announce(*a.first()? as usize, *a.get(1)?),
+        "Dup" => Ev::Dup(*a.first()? as usize),
+        "StaleProof" => Ev::StaleProof(*a.first()? as usize),
+        "Tick" => Ev::Tick(*a.first()? as usize),
+        "FetchTick" => Ev::FetchTick,
+        _ => return None,
+    })
+}
+
+fn make_model<'a>(env: &'a Env, n_peers: usize, start: u8) -> FsmModel<'a> {
+    let mut main = Chain::new(std::sync::Arc::clone(&env.consensus), scen::wavy_plan(6));
+    scen::extend_chain(&mut main, &env.scripts, 40, &[]);
+    let fetch_hash = main.blocks[6].hash();
+    FsmModel {
+        env,
+        main,
+        cfg: ClientCfg { last_n: 3, max_outbound: 2, cp_interval: 4, ..Default::default() },
+        n_peers,
+        start_proven: start >= 1,
+        start_requested: start == 2,
+        fetch_hash,
+        track: RefCell::new(Track::default()),
+        edges_seen: RefCell::new(BTreeSet::new()),
+    }
+}
+
 pub(crate) fn run(opts: &Opts, report: &mut Report) {
     let thorough = opts.thorough();
+    // a recorded event list is replayed directly
+    if let Some((config, events)) = opts.replay.as_deref().and_then(bfs::read_replay) {
+        let env = Env::dummy();
+        let n_peers: usize = config.chars().next().and_then(|c| c.to_digit(10)).unwrap_or(1) as usize;
+        let start = ["fresh", "proven", "requested"].iter().position(|s| config.ends_with(s)).unwrap_or(0) as u8;
+        let m = make_model(&env, n_peers, start);
+        let evs: Vec<Ev> = events.iter().filter_map(|e| parse_ev(e)).collect();
+        let mut rep = |hist: &[Ev], class: String, detail: String| {
+            let last = hist.last().map(|e| format!("{:?}", e).split('(').next().unwrap_or("").to_owned()).unwrap_or_default();
+            report.violation(format!("{}/{}", class, last), format!("[{}] after {:?}: {}", config, hist, detail), json!({"config": config, "events": hist.iter().map(|e| format!("{:?}", e)).collect::<Vec<_>>()}));
+        };
+        bfs::replay_one(&m, &evs, &mut rep);
+        return;
+    }
     // (peers, start: 0 fresh / 1 proven / 2 proven with an outstanding new proof request, max depth)
     let configs: Vec<(usize, u8, usize)> = if thorough {
         vec![(1, 0, 6), (1, 1, 5), (1, 2, 5), (2, 0, 4), (2, 1, 4), (2, 2, 4)]
